@@ -62,6 +62,38 @@ Theorem C18_restore_identical :
 Proof. exact restore_identical_lemma. Qed.
 Print Assumptions C18_restore_identical.
 
+(* A completed restore (task-filtered or not, any manager record, ANY prior state
+   of the data tree) leaves every selected recorded file with exactly the bytes of
+   its backup copy.  The model has NO file metadata and restore_backup copies every
+   selected file unconditionally: a restore that decides from size / time stamps
+   whether to copy is not this program (tied by the restore effect-trace
+   correspondence and by size- and mtime-preserving edits in the histories). *)
+Theorem C18_restore_selected_from_backup :
+  forall (m : mgr) (f : fs) (b : name) (tasks : list str) keys f',
+    mgr_get m b = Some keys ->
+    Forall (fun k => under (backup_dir b) (key_path k) = false) keys ->
+    restore_backup m f b tasks = (f', Ok tt) ->
+    forall k, In k keys ->
+      (tasks = [] \/ task_selected tasks (backup_root b ++ key_path k) = true) ->
+      exists c, read f (backup_root b ++ key_path k) = Some c /\ read f' (key_path k) = Some c.
+Proof. exact restore_selected_lemma. Qed.
+Print Assumptions C18_restore_selected_from_backup.
+
+(* The restored content is a function of the backup alone: two data trees with
+   arbitrary different histories but the same backup restore to the same bytes. *)
+Theorem C18_restore_history_independent :
+  forall (m : mgr) (b : name) (tasks : list str) keys (f g f' g' : fs),
+    mgr_get m b = Some keys ->
+    Forall (fun k => under (backup_dir b) (key_path k) = false) keys ->
+    (forall p, under (backup_dir b) p = true -> lookup f p = lookup g p) ->
+    restore_backup m f b tasks = (f', Ok tt) ->
+    restore_backup m g b tasks = (g', Ok tt) ->
+    forall k, In k keys ->
+      (tasks = [] \/ task_selected tasks (backup_root b ++ key_path k) = true) ->
+      read f' (key_path k) = read g' (key_path k).
+Proof. exact restore_history_independent. Qed.
+Print Assumptions C18_restore_history_independent.
+
 (* A restore (task-filtered or not, completed or aborted by an exception)
    changes no path other than the recorded files selected by the filter (as
    implemented: base name contains "task_<name>" for a non-empty requested name) and their ancestor
